@@ -306,6 +306,24 @@ func (lf *layFn) collect() {
 							}
 						}
 					}
+					// a local standing for an element or a field of the record: `page := &v[i]`, `page := rs[i]`,
+					// `loc := &fp.Location`
+					rhs := x.Rhs[0]
+					if u, ok := rhs.(*ast.UnaryExpr); ok && u.Op == token.AND {
+						rhs = u.X
+					}
+					switch rhs.(type) {
+					case *ast.IndexExpr, *ast.SelectorExpr:
+						if tv, ok := info.Types[rhs]; ok && !isByteSeq(tv.Type) {
+							if _, isBasic := tv.Type.Underlying().(*types.Basic); !isBasic {
+								if o := info.Defs[id]; o != nil {
+									if p := lf.pathOf(rhs, 0); p != "" && p != "." {
+										lf.rng[o] = p
+									}
+								}
+							}
+						}
+					}
 				}
 			}
 		}
